@@ -24,6 +24,8 @@ type fragSource struct {
 	pos  int
 	mode string
 	r    *rand.Rand
+	nth  int // fragments delivered (mode "gaps")
+	gap  bool
 }
 
 func (s *fragSource) Read(p []byte) (int, error) {
@@ -35,6 +37,20 @@ func (s *fragSource) Read(p []byte) (int, error) {
 	}
 	n := len(s.data) - s.pos
 	switch s.mode {
+	case "gaps":
+		// fragments of 1..7 bytes with an empty fragment - (0, nil), which the io.Reader contract
+		// allows and asks callers to treat as "nothing happened" - before every fifth one, never
+		// two in a row
+		s.nth++
+		if s.nth%5 == 0 && !s.gap {
+			s.gap = true
+			s.nth--
+			return 0, nil
+		}
+		s.gap = false
+		if k := 1 + s.r.Intn(7); k < n {
+			n = k
+		}
 	case "one":
 		n = 1
 	case "small":
@@ -177,7 +193,7 @@ func runSchedule(c *hx.Ctx, name, format string, data, plain []byte, ks []int, m
 
 // C13: output independent of read sizes and source fragmentation; EOF stable.
 func C13(c *hx.Ctx) {
-	c.Rule = "all Read-length schedules of length 5 (thorough 6) over {0,1,2,3,64} generated by TLC (IoGen, where IoContract.ReadSchedule is also checked exhaustively) x source fragmentations {whole, 1 byte, 1-3 bytes, half buffers, data together with EOF} x small structured streams of the three formats (multi-block xz, two xz streams with padding, LZMA2 with raw and reset chunks, .lzma in three termination modes); plus seeded random schedules on large streams; every (k,n,err) is judged by the contract and a capped sample of the recorded schedules is validated by TLC (TraceIo); non-trivial = schedule containing a zero-length or 1-byte read; plus reference-written blocks with size fields, 9-20 kB streams read with a 4 KiB window in pieces of 1/7/100/8192/70000 bytes with a zero-length read after every piece, stored chunks longer than the window"
+	c.Rule = "all Read-length schedules of length 5 (thorough 6) over {0,1,2,3,64} generated by TLC (IoGen, where IoContract.ReadSchedule is also checked exhaustively) x source fragmentations {whole, 1 byte, 1-3 bytes, half buffers, data together with EOF, 1-7 bytes with empty (0, nil) fragments in between} x small structured streams of the three formats (multi-block xz, two xz streams with padding, LZMA2 with raw and reset chunks, .lzma in three termination modes); plus seeded random schedules on large streams; every (k,n,err) is judged by the contract and a capped sample of the recorded schedules is validated by TLC (TraceIo); non-trivial = schedule containing a zero-length or 1-byte read; plus reference-written blocks with size fields, 9-20 kB streams read with a 4 KiB window in pieces of 1/7/100/8192/70000 bytes with a zero-length read after every piece, stored chunks longer than the window"
 	c.Assumptions = []string{"TLC (IoContract, IoGen, TraceIo)", "plaintexts from the reference decoder"}
 	c.Exhaustive = true
 	cfg := fmt.Sprintf("SPECIFICATION GSpec\nCONSTANTS Lens = {0, 1, 2, 3, 64}\n SchedLen = %d\n MaxK = 48\n N0 = 6\nINVARIANTS PrefixDelivered EndedMeansAll EmitSched\nCHECK_DEADLOCK FALSE\n", c.Pick(5, 6))
@@ -255,7 +271,7 @@ func C13(c *hx.Ctx) {
 			small = append(small, strm{b.Name + "-9", "alone", buf.Bytes(), txt})
 		}
 	}
-	modes := []string{"whole", "one", "small", "half", "dataeof"}
+	modes := []string{"whole", "one", "small", "half", "dataeof", "gaps"}
 	type job struct {
 		s    int
 		ks   []int
